@@ -22,10 +22,10 @@ vars == <<phase, tpl, ck, bk, mode, slots, subj>>
 At(n) == AtomTable[n]
 OpLeaf(i) == Leaf(<<i>>, "op")
 Cont(kind, n) == [k |-> kind, sh |-> <<>>, dt |-> "", ch |-> [i \in 1..n |-> OpLeaf(i)],
-                  keys |-> IF kind = "dict" THEN SubSeq(<<"a", "b", "c">>, 1, n) ELSE <<>>]
+                  keys |-> IF kind = "dict" THEN SubSeq(<<"a", "b", "c", "d", "e", "f", "g">>, 1, n) ELSE <<>>]
 Blk(kind, cont, ops) == Term(kind, 0, cont, <<>>, ops)
 
-NSlots(t) == CASE t = 1 -> 1 [] t \in {2, 3, 4, 6} -> 2 [] t = 5 -> 1 [] t = 7 -> 1 [] t \in {8, 9} -> 3
+NSlots(t) == CASE t = 1 -> 1 [] t \in {2, 3, 4, 6, 10, 11} -> 2 [] t = 5 -> 1 [] t = 7 -> 1 [] t \in {8, 9} -> 3
 SlotDomain(t) == IF t = 1 THEN Names \cup Solo ELSE IF t \in {2, 5} THEN Names ELSE Pool
 
 Assemble(t, c, b, x) ==
@@ -38,6 +38,9 @@ Assemble(t, c, b, x) ==
     [] t = 7 -> Blk(b, Cont(c, 1), <<x[1]>>)
     [] t = 8 -> Blk(b, ListS(<<ListS(<<OpLeaf(1), OpLeaf(2)>>), OpLeaf(3)>>), <<x[1], x[2], x[3]>>)
     [] t = 9 -> Comp(<<x[1], x[2], x[3]>>)
+    \* containers of larger arity (six and seven blocks, the two operands alternating)
+    [] t = 10 -> Blk(b, Cont(c, 6), <<x[1], x[2], x[1], x[2], x[1], x[2]>>)
+    [] t = 11 -> Blk(b, Cont(c, 7), <<x[1], x[2], x[1], x[2], x[1], x[2], x[1]>>)
 
 RECURSIVE WellTyped(_)
 WellTyped(t) ==
@@ -52,7 +55,7 @@ WellTyped(t) ==
 Init == /\ phase = "pick" /\ tpl \in Templates
         /\ ck \in {"list", "tuple", "dict"} /\ bk \in BlockKinds
         /\ mode \in {"plain", "T", "I"}
-        /\ (tpl \notin {6, 7, 8} => ck = "list" /\ bk = "bdiag")
+        /\ (tpl \notin {6, 7, 8, 10, 11} => ck = "list" /\ bk = "bdiag")
         /\ (tpl = 8 => ck = "list")
         /\ slots = <<>> /\ subj = ErrT
 
